@@ -159,6 +159,8 @@ def run_case(shape, ks, perm, k1, b1, k2, b2, k3, b3):
         return False
     if any(ch in out for ch in " \t") and not any(isinstance(x, str) and (" " in x) for x in (a, b, c)):
         return False
+    if C.canonicalize(plain(v)) != want.encode("utf-8") or C.canonicalize(plain(v), utf8=True) != want.encode("utf-8"):
+        return False                      # the default / utf8=True form is the UTF-8 encoding of the same text
     return encode(json.loads(out)) == out and C.canonicalize(plain(v), utf8=False) == ref_ser_c(plain(v))
 
 
